@@ -733,6 +733,89 @@ func nearValid(v *spec.Version, abv, val string) string {
 	return "unknown abbreviation"
 }
 
+// SliceOffer: the value offered to Set is a SLICE of a legal value of the metric - of the string that
+// Get returns for it (it lies in the library's own constant data) or of the table literal (identical
+// literals are merged by the linker): same address as a legal value, other length. A comparison that
+// short-cuts on the address of the string data takes it for the legal value.
+type SliceOffer struct {
+	Ver      int    `json:"ver"`
+	Abv      string `json:"abv"`
+	Val      string `json:"legal_value"`
+	From, To int
+	FromGet  bool `json:"slice_of_get_result"`
+}
+
+func checkSliceOffer(c SliceOffer) error {
+	if c.Ver < 0 || c.Ver > 3 {
+		return nil
+	}
+	p := adapt.Pkgs[c.Ver]
+	m := p.V.Metric(c.Abv)
+	if m == nil || !m.HasValue(c.Val) || c.From < 0 || c.To > len(c.Val) || c.From > c.To {
+		return nil
+	}
+	src := ""
+	for _, x := range m.Vals { // the table's own literal, not the copy that came through JSON
+		if x == c.Val {
+			src = x
+		}
+	}
+	o := p.Zero()
+	if err := o.Set(c.Abv, src); err != nil {
+		return nil // C09's offers own this
+	}
+	if c.FromGet {
+		g, err := o.Get(c.Abv)
+		if err != nil || g != c.Val {
+			return nil
+		}
+		src = g
+	}
+	offered := src[c.From:c.To]
+	// start from another legal value so that a wrongly accepted slice changes something visible
+	other := m.Vals[0]
+	if other == c.Val {
+		other = m.Vals[len(m.Vals)-1]
+	}
+	if err := o.Set(c.Abv, other); err != nil {
+		return nil
+	}
+	before := o.Clone()
+	legal := m.HasValue(offered)
+	err := o.Set(c.Abv, offered)
+	if legal != (err == nil) {
+		return fmt.Errorf("v%s Set(%q, %q) = %v when the value is the slice [%d:%d] of the legal value %q (slice of the Get result: %v); the pair is legal: %v", p.V.Name, c.Abv, offered, err, c.From, c.To, c.Val, c.FromGet, legal)
+	}
+	if err != nil && !o.Eq(before) {
+		return fmt.Errorf("v%s Set(%q, %q) failed but changed the object", p.V.Name, c.Abv, offered)
+	}
+	if err == nil {
+		if g, _ := o.Get(c.Abv); g != offered {
+			return fmt.Errorf("v%s Set(%q, %q) succeeded and Get returns %q", p.V.Name, c.Abv, offered, g)
+		}
+	}
+	return nil
+}
+
+func sliceOffers() []SliceOffer {
+	var out []SliceOffer
+	for vi, v := range spec.Versions {
+		for _, m := range v.Metrics {
+			for _, val := range m.Vals {
+				for from := 0; from <= len(val); from++ {
+					for to := from; to <= len(val); to++ {
+						if from == 0 && to == len(val) {
+							continue
+						}
+						out = append(out, SliceOffer{Ver: vi, Abv: m.Abv, Val: val, From: from, To: to}, SliceOffer{Ver: vi, Abv: m.Abv, Val: val, From: from, To: to, FromGet: true})
+					}
+				}
+			}
+		}
+	}
+	return out
+}
+
 func drawOffer(rt *rapid.T) Offer {
 	vi := gen.Version(rt)
 	v := spec.Versions[vi]
@@ -824,6 +907,14 @@ func TestC09(t *testing.T) {
 			}
 			h.R.AddExact(int64(per*len(bgs)), int64(near))
 			h.R.Count(fmt.Sprintf("exhaustive pool grid: %d abbreviations x %d values x 4 versions x 2 objects", len(abvs), len(vals)), int64(per*len(bgs)))
+		}
+	}
+	if env.Shards <= 1 {
+		so := sliceOffers()
+		Enum(h, "slice-offer", len(so), func(i int) SliceOffer { return so[i] }, nil, checkSliceOffer)
+		if !h.replaying() {
+			h.R.AddExact(int64(len(so)), int64(len(so)))
+			h.R.Count("exhaustive: every proper slice of every legal value (of the Get result and of the table literal) offered to Set", int64(len(so)))
 		}
 	}
 	nh := env.Scale(5000, 15000)
